@@ -445,6 +445,11 @@ func checkC07(w *World, r *Report) {
 			}
 			r.Check(ok, "C07.move", funcName(h)+": amount = LockedCoins(from)"+map[bool]string{true: " restricted to msg.Denoms", false: ""}[strings.HasSuffix(anchor, "ByDenoms")], w.Pos(s.Instr.Pos()),
 				"origins: "+o.String(), "the amount moved is not the sender's locked coins: "+o.String())
+			// the amount is a coin SET (sorted, one entry per denomination): the unlock validates it and refuses anything
+			// else, so a set assembled by appending coins in the order the sender listed them makes the move fail
+			if raw := rawCoinAssembly(s.Common().Args[len(s.Common().Args)-1]); true {
+				r.Check(raw == nil, "C07.move", funcName(h)+": the amount is assembled by the coin-set operations", w.Pos(s.Instr.Pos()), "no raw append / make on any alternative of the amount", "the amount is assembled by appending coins to a raw slice: the denominations keep the sender's order and repetitions, the set is not sorted and the unlock refuses it (or a repeated denomination is moved twice)")
+			}
 		}
 	}
 }
@@ -471,4 +476,40 @@ func lcs0(c []*ssa.Call) *ssa.Call {
 		return nil
 	}
 	return c[0]
+}
+
+// rawCoinAssembly follows the alternatives of a coin set (phis, conversions, re-slicing) and returns the instruction
+// that builds it with the slice primitives (append, make) instead of the coin-set operations (NewCoins, Add, Sub, a
+// bank query), or nil.
+func rawCoinAssembly(v ssa.Value) ssa.Instruction {
+	seen := map[ssa.Value]bool{}
+	var walk func(v ssa.Value) ssa.Instruction
+	walk = func(v ssa.Value) ssa.Instruction {
+		v = stripConv(v)
+		if v == nil || seen[v] {
+			return nil
+		}
+		seen[v] = true
+		switch x := v.(type) {
+		case *ssa.Phi:
+			for _, e := range x.Edges {
+				if i := walk(e); i != nil {
+					return i
+				}
+			}
+		case *ssa.ChangeType:
+			return walk(x.X)
+		case *ssa.Slice:
+			return walk(x.X)
+		case *ssa.MakeSlice:
+			// an empty set made with capacity is harmless by itself; the appends onto it are what is reported
+			return nil
+		case *ssa.Call:
+			if b, isB := x.Call.Value.(*ssa.Builtin); isB && b.Name() == "append" {
+				return x
+			}
+		}
+		return nil
+	}
+	return walk(v)
 }
